@@ -49,10 +49,39 @@ for (c_, s_) in WRITERS:
 
 
 def inplace_if(v):
+    """the `if inplace:` statement that separates the two forms: the one whose in-place arm returns self (an earlier
+    `if inplace:` block that only validates - a dry run of the copying form - is not it)"""
+    cands = [st for st in v.stmts() if isinstance(st, ast.If) and isinstance(st.test, ast.Name) and st.test.id == "inplace"]
+    for st in cands:
+        if any(isinstance(x, ast.Return) and isinstance(x.value, ast.Name) and x.value.id == "self" for x in walk_stmts(st.body)):
+            return st
+    if cands:
+        return cands[0]
+    raise AnalysisError(f"{v.f.qual}: no top-level `if inplace:` statement")
+
+
+def must_pass_on_inplace_path(v, via_stmt, target_stmt):
+    """every path entry -> target_stmt that takes the true edge at every `if inplace` test passes via_stmt"""
+    cfg = v.cfg
+    cut = set()
     for st in v.stmts():
         if isinstance(st, ast.If) and isinstance(st.test, ast.Name) and st.test.id == "inplace":
-            return st
-    raise AnalysisError(f"{v.f.qual}: no top-level `if inplace:` statement")
+            n = cfg.node(st)
+            for s_ in cfg.succ[n.id]:
+                if cfg.edge_label.get((n.id, s_)) == "F":
+                    cut.add((n.id, s_))
+    via, tgt = cfg.node(via_stmt).id, cfg.node(target_stmt).id
+    seen = set()
+    stack = [cfg.entry.id]
+    while stack:
+        x = stack.pop()
+        if x in seen or x == via:
+            continue
+        seen.add(x)
+        for s_ in cfg.succ[x]:
+            if (x, s_) not in cut:
+                stack.append(s_)
+    return tgt not in seen
 
 
 from ..lib import else_stmts  # noqa: E402
@@ -526,14 +555,15 @@ def mesh_siblings(chk, pid, only=None):
                    f"{len(rc)} call(s) apply {op} to self.region in the {form} form with the right inplace flag", v.f, ifst)
             chk.ob(f"{q}::{form}::subregions-transformed", len(sc) == 1, f"{pid}.siblings",
                    f"{len(sc)} call(s) apply {op} to the subregions in the {form} form with the right inplace flag", v.f, ifst)
-            # a call with the wrong flag in this form
+            # a call with the wrong flag in this form (a copying call whose result is discarded is a dry run: it validates)
             wrong = [x for x in region_calls + sub_calls if x["where"] == form and
-                     x["flag"] == ("false" if form == "inplace" else "true")]
+                     x["flag"] == ("false" if form == "inplace" else "true") and not (form == "inplace" and _is_dry_run(x))]
             chk.ob(f"{q}::{form}::flags", not wrong, f"{pid}.siblings",
                    "; ".join(f"`{v.src(x['call'])}` has the wrong inplace flag for the {form} form" for x in wrong) or "ok",
                    v.f, wrong[0]["call"] if wrong else None)
             if len(rc) == 1 and len(sc) == 1:
                 _same_step(chk, pid, v, q, form, rc[0], sc[0])
+        _mesh_refusal_before_mutation(chk, pid, v, q, op, region_calls, sub_calls)
         # subregions ctor arg is built from those calls, region arg likewise
         for r, a in cm.returned_news(v, cls=MESH, via=[else_stmts(v, ifst)[0]] if else_stmts(v, ifst) else None):
             rg = a.get("region")
@@ -556,6 +586,52 @@ def mesh_siblings(chk, pid, only=None):
             _mesh_rotate_n(chk, pid, v, ifst)
 
 
+def _is_dry_run(rec):
+    """a copying-form call whose value is discarded: made only for the refusals of the copying form"""
+    return rec["flag"] == "false" and isinstance(rec["st"], ast.Expr) and rec["st"].value is rec["call"]
+
+
+def _mesh_refusal_before_mutation(chk, pid, v, q, op, region_calls, sub_calls):
+    """Region.<op> refuses a degenerate result in its in-place arm as well (after its argument checks).  A mesh step in place
+    transforms the region and then every subregion: a subregion that refuses would leave the mesh half transformed, so the
+    refusals of all subregions must have been provoked (copying form, value discarded) before the first in-place call."""
+    repo = chk.repo
+    w = FV(repo, f"region.Region.{op}")
+    wif = inplace_if(w)
+    callee_refuses = any(isinstance(x, ast.Raise) for x in walk_stmts(wif.body))
+    inpl = [x for x in region_calls + sub_calls if x["flag"] in ("true", "flag") and x["where"] in ("inplace", "both")]
+    chk.require(inpl, f"{q}: no in-place call found")
+    first = None
+    for x in inpl:
+        if first is None or v.cfg.reachable(v.cfg.node(x["st"]), v.cfg.node(first["st"])):
+            first = x
+    sub_inpl = [x for x in sub_calls if x["flag"] in ("true", "flag") and x["where"] in ("inplace", "both")]
+    dry = [x for x in sub_calls if _is_dry_run(x)]
+    ok = not callee_refuses
+    det = "Region.%s never refuses in place" % op
+    if callee_refuses:
+        det = "no dry run of the subregions (copying form, value discarded) precedes the first in-place call"
+        for d in dry:
+            hdr = d["st"]
+            for p_, f_ in v.cfg.enclosing(d["st"]):
+                if isinstance(p_, ast.For):
+                    hdr = p_
+            same = sub_inpl and all(v.eq(d["args"].get(k), sub_inpl[0]["args"].get(k)) for k in
+                                    set(d["args"]) | set(sub_inpl[0]["args"]) if k != "inplace"
+                                    if d["args"].get(k) is not None or sub_inpl[0]["args"].get(k) is not None)
+            if not same:
+                det = "the dry run does not apply the step of the in-place call (different arguments)"
+                continue
+            if must_pass_on_inplace_path(v, hdr, first["st"]):
+                ok = True
+                det = "ok"
+            else:
+                det = "the dry run does not precede the first in-place call on every in-place path"
+    chk.ob(f"{q}::inplace::refusal-before-mutation", ok, f"{pid}.atomic",
+           f"{det}: a subregion that loses its extent (far-away reference point / vector) is refused by Region.{op}; when that "
+           "happens after the region was transformed in place the mesh is left half transformed", v.f, first["st"])
+
+
 def _same_step(chk, pid, v, q, form, rc, sc):
     """region call and subregion call apply the identical step"""
     ra, sa = rc["args"], sc["args"]
@@ -567,8 +643,15 @@ def _same_step(chk, pid, v, q, form, rc, sc):
         rr = ra.get("reference_point")
         sr = sa.get("reference_point")
         okr = rr is not None and is_sym(v.ctx, rr, "param:reference_point")
+        if rr is not None and not okr:
+            # ... or the point already resolved the way Region.<op> resolves None itself: the region's own centre
+            leaves_r = _ref_leaves(v, rr)
+            centre_r = v.spec("self.region.center")
+            okr = leaves_r is not None and all(v.eq(x, centre_r) or is_sym(v.ctx, x, "param:reference_point") for x in leaves_r) \
+                and any(is_sym(v.ctx, x, "param:reference_point") for x in leaves_r) and _none_replaced(v, rr, rc["st"])
         chk.ob(f"{q}::{form}::region-reference", okr, f"{pid}.siblings",
-               f"region is transformed about {v.show(rr)}; expected the caller's reference_point", v.f, rc["call"])
+               f"region is transformed about {v.show(rr)}; expected the caller's reference_point (or the region's own centre "
+               "exactly when none is given)", v.f, rc["call"])
         oks = False
         det = v.show(sr)
         if sr is not None:
